@@ -43,7 +43,8 @@ def _worker(modname, tier, vseed, phase_idx, phase, lo, hi):
         sim = Sim(seed=seed, keep_events=False)
         signal.alarm(RUN_ALARM_S)
         try:
-            check.run_one(sim, params)
+            with core.quiet_stdout():
+                check.run_one(sim, params)
         except Violation as v:
             signal.alarm(0)
             res["violations"].append({
